@@ -126,6 +126,10 @@ def step (d : DSt) (line : String) : DSt × Option String :=
     match planShift 200000 (d.lplan.map fun x => (x.cfg, x.s0)) with
     | none => (d, some "PERIOD none")
     | some (din, dout, hor) => (d, some s!"PERIOD in={din} out={dout} hor={hor}")
+  | ["cr.eoi"] =>
+    -- soxr_process(p, NULL, 0, &idone, NULL, 0, &odone): end-of-input latched on the API object and passed to the engine
+    let a := d.api.signalEnd (num d)
+    ({ d with api := a }, some ("R id=0 od=0 used=0 reqs= " ++ stateLine a))
   | ["cr.delay"] => (d, some s!"DELAY {delayBits d}")
   | "cr.proc" :: hasIn :: flushReq :: useIdone :: ilen0 :: olen :: script =>
     match d.api.process (num d) d.fuel (hasIn == "1") (flushReq == "1") (useIdone == "1")
